@@ -139,6 +139,7 @@ func runC20(r *Run) {
 				<-release
 			}
 		})
+		meter := startStallMeter()
 		ctx, cancel := context.WithCancel(context.Background())
 		q := new(dns.Msg)
 		q.SetQuestion("c20.example.", dns.TypeA)
@@ -243,6 +244,7 @@ func runC20(r *Run) {
 		case <-time.After(4 * time.Second):
 			timedOut = true
 		}
+		stall := meter.Stop()
 		secStartedAtReturn := atomic.LoadInt32(&sec.calls) > 0
 		// the caller's receives: as many as the model needs to reach a result
 		if sc.kind != "D" {
@@ -309,6 +311,8 @@ func runC20(r *Run) {
 			}
 		case "E":
 			switch {
+			case sAns && res.result == "secondary" && res.took > 270*time.Millisecond && stall > 25*time.Millisecond:
+				r.Count("timing-bound-not-asserted:machine-stalled") // the harness process itself was held up for longer than the margin
 			case sAns && (res.result != "secondary" || res.took > 270*time.Millisecond):
 				r.Fail("the threshold (counted from the start of the call) passed with a finished standby secondary, but its answer was not returned then", desc)
 			case !sAns && pAns && res.result != "primary":
